@@ -26,6 +26,18 @@
 //	        context's deadline, values that are no timeouts, and two values.
 //	        The context's deadline decides, the metadata entry never does
 //	        (grpc-go drops that reserved key from the caller's metadata).
+//
+// The server and e2e clauses are crossed with one more dimension, of the
+// deployment rather than of the call:
+//
+//	ctx     the context of the request that the library's HTTP handler is given
+//	        already has a deadline of its own (http.TimeoutHandler, a budget
+//	        middleware, http.Server.BaseContext): none, one that lies before the
+//	        caller's, one that lies after it, one that has expired. The handler's
+//	        deadline is still never later than the caller's (plus transit and
+//	        granularity), never later than that of the request context (context
+//	        deadlines only shrink), and never earlier than the earlier of the
+//	        two (minus granularity).
 package main
 
 import (
@@ -175,6 +187,55 @@ type hObs struct {
 	HasDl   bool
 	Dl      time.Time
 	T       time.Time // instant inside the handler
+	// the deadline that the request context carried when the library's HTTP
+	// handler was entered lies in [Plo, Phi] (Plo == Phi when it is known exactly)
+	Pre      bool
+	Plo, Phi time.Time
+}
+
+func (o *hObs) preObs(ref time.Time, name string) string {
+	if !o.Pre {
+		return ""
+	}
+	if o.Plo.Equal(o.Phi) {
+		return ", request context deadline=" + fmtTime(o.Plo, ref, name)
+	}
+	return ", request context deadline in [" + fmtTime(o.Plo, ref, name) + ", " + fmtTime(o.Phi, ref, name) + "]"
+}
+
+// mounted is the library's server the way the case deploys it: directly, with
+// a deadline on the request's context, or behind http.TimeoutHandler. The
+// bounds of the request context's deadline are recorded in o.
+func mounted(pre preCase, o *hObs) http.Handler {
+	srv := server()
+	return http.HandlerFunc(func(w http.ResponseWriter, r *http.Request) {
+		d := time.Duration(pre.PreNs)
+		switch {
+		case pre.Pre == "":
+			srv.ServeHTTP(w, r)
+		case pre.Mount == mountTH:
+			// TimeoutHandler runs the handler on a goroutine of its own and may come
+			// back before it: wait for the handler itself (a gate, not a delay)
+			done := make(chan struct{})
+			inner := http.HandlerFunc(func(w http.ResponseWriter, r *http.Request) {
+				defer close(done)
+				o.Phi = time.Now().Add(d) // TimeoutHandler has made its context by now
+				srv.ServeHTTP(w, r)
+			})
+			th := http.TimeoutHandler(inner, d, "c09: the server's own limit")
+			o.Pre = true
+			o.Plo = time.Now().Add(d) // ... and not yet by now
+			o.Phi = o.Plo
+			defer func() { <-done }()
+			th.ServeHTTP(w, r)
+		default:
+			dl := time.Now().Add(d)
+			ctx, cancel := context.WithDeadline(r.Context(), dl)
+			defer cancel()
+			o.Pre, o.Plo, o.Phi = true, dl, dl
+			srv.ServeHTTP(w, r.WithContext(ctx))
+		}
+	})
 }
 
 var cur *hObs // cases run strictly one at a time
@@ -221,10 +282,12 @@ func server() *httpgrpc.Server {
 // ---------------------------------------------------------------- server clause
 
 type serverCase struct {
+	Engine  string `json:"engine"`  // "E2"
 	Kind    string `json:"kind"`    // "server"
 	Handler string `json:"handler"` // unary | stream
 	Absent  bool   `json:"absent,omitempty"`
 	Header  string `json:"header"`
+	preCase
 }
 
 type serverObs struct {
@@ -236,7 +299,6 @@ type serverObs struct {
 
 func runServer(c serverCase) serverObs {
 	var o serverObs
-	srv := server()
 	var req *http.Request
 	if c.Handler == "stream" {
 		req = httptest.NewRequest("POST", "/t.S/B", strings.NewReader(""))
@@ -253,7 +315,8 @@ func runServer(c serverCase) serverObs {
 		req.Header["Grpc-Timeout"] = []string{c.Header}
 	}
 	rec := httptest.NewRecorder()
-	guard(fmt.Sprintf("server/%s/%q", c.Handler, c.Header), func() {
+	h := mounted(c.preCase, &o.hObs)
+	guard(fmt.Sprintf("server/%s/%q/%s", c.Handler, c.Header, c.preCase.label()), func() {
 		defer func() {
 			if p := recover(); p != nil {
 				o.Panic = fmt.Sprint(p)
@@ -262,16 +325,42 @@ func runServer(c serverCase) serverObs {
 		cur = &o.hObs
 		defer func() { cur = nil }()
 		o.T0 = time.Now()
-		srv.ServeHTTP(rec, req)
+		h.ServeHTTP(rec, req)
 		o.T2 = time.Now()
 	})
 	o.Status = rec.Code
 	return o
 }
 
-// checkServer returns ("", obs) when the case satisfies the property. class is
-// the description of the input used in the fingerprint.
-func checkServer(c serverCase) (clause, obs string, reachedParser bool) {
+// preRel is the measured relation between the request context's own deadline
+// and the caller's (which lies in [lo, hi]): "" when there is none.
+func preRel(o *hObs, start, lo, hi time.Time) string {
+	switch {
+	case !o.Pre:
+		return ""
+	case o.Phi.Before(start):
+		return "expired"
+	case o.Phi.Before(lo):
+		return "earlier"
+	case o.Plo.After(hi):
+		return "later"
+	}
+	return "straddling"
+}
+
+// beyondPre: the request context had a deadline and the handler's context has
+// none or a later one. Context deadlines only shrink.
+func beyondPre(o *hObs) bool {
+	return o.Pre && o.Reached && (!o.HasDl || o.Dl.After(o.Phi))
+}
+
+const beyondClause = "beyond-request-context"
+
+// checkServer returns ("", obs) when the case satisfies the property.
+// reachedParser: the parse branch ran and the handler's deadline was observed;
+// rel: the measured relation of the request context's deadline to the one the
+// header asks for.
+func checkServer(c serverCase) (clause, obs string, reachedParser bool, rel string) {
 	o := runServer(c)
 	f := parseRef(c.Header)
 	switch {
@@ -284,61 +373,86 @@ func checkServer(c serverCase) (clause, obs string, reachedParser bool) {
 	default:
 		obs = fmt.Sprintf("handler reached at t0+%v, deadline=%s, http=%d", o.T.Sub(o.T0), fmtTime(o.Dl, o.T0, "t0"), o.Status)
 	}
+	obs += o.preObs(o.T0, "t0")
 	reachedParser = !c.Absent && c.Header != "" && o.Reached
+	if o.Pre {
+		rel = "present"
+		if o.Phi.Before(o.T0) {
+			rel = "expired"
+		}
+	}
 	if o.Panic != "" {
-		return "panic", obs, reachedParser
+		return "panic", obs, reachedParser, rel
 	}
 	if c.Absent {
-		if !o.Reached {
-			return "handler-not-reached", obs, false
+		switch {
+		case !o.Reached:
+			return "handler-not-reached", obs, false, rel
+		case beyondPre(&o.hObs):
+			return beyondClause, obs, false, rel
+		case o.HasDl && (!o.Pre || o.Dl.Before(o.Plo)):
+			return "deadline-without-header", obs, false, rel
 		}
-		if o.HasDl {
-			return "deadline-without-header", obs, false
-		}
-		return "", obs, false
+		return "", obs, false, rel
 	}
 	if !f.Valid {
 		// not of the form <digits><unit>: anything but a crash
-		if o.Status >= 500 && o.Status != http.StatusGatewayTimeout {
-			return "5xx", obs, reachedParser
+		ownLimit := c.Mount == mountTH && o.Status == http.StatusServiceUnavailable && !o.T2.Before(o.Plo) // TimeoutHandler's own answer
+		if o.Status >= 500 && o.Status != http.StatusGatewayTimeout && !ownLimit {
+			return "5xx", obs, reachedParser, rel
 		}
-		return "", obs, reachedParser
+		if beyondPre(&o.hObs) {
+			return beyondClause, obs, reachedParser, rel
+		}
+		return "", obs, reachedParser, rel
 	}
 	want := "want deadline-D in [t0,t_handler], D=" + f.D.String() + "ns"
-	if !o.Reached {
-		// only legitimate when the deadline had really passed already
-		if !laterThanBig(o.T2, o.T0, f.D) {
-			return "handler-not-reached", obs + "; " + want, reachedParser
-		}
-		return "", obs, reachedParser
+	if o.Pre {
+		want += ", or the request context's deadline if that comes first"
 	}
+	if !o.Reached {
+		// only legitimate when a deadline had really passed already
+		if !laterThanBig(o.T2, o.T0, f.D) && !(o.Pre && !o.T2.Before(o.Plo)) {
+			return "handler-not-reached", obs + "; " + want, reachedParser, rel
+		}
+		return "", obs, reachedParser, rel
+	}
+	// the earliest the handler's deadline may be: t0+D (saturated), or the
+	// request context's own deadline if that comes first
+	var lower, upper time.Time
 	if f.Fits {
 		d := time.Duration(f.D.Int64())
-		switch {
-		case !o.HasDl:
-			return "no-deadline", obs + "; " + want, true
-		case o.Dl.Before(o.T0):
-			return "past-deadline", obs + "; " + want, true
-		case o.Dl.Before(o.T0.Add(d)):
-			return "too-early", obs + "; " + want, true
-		case o.Dl.After(o.T.Add(d)):
-			return "too-late", obs + "; " + want, true
+		lower, upper = o.T0.Add(d), o.T.Add(d)
+		rel = preRel(&o.hObs, o.T0, lower, upper)
+	} else {
+		lower = o.T0.Add(math.MaxInt64)
+		want = "D=" + f.D.String() + "ns exceeds MaxInt64: want no deadline or one not before t0+MaxInt64ns"
+		if o.Pre {
+			want += ", or the request context's deadline"
 		}
-		return "", obs, true
+		if rel == "present" {
+			rel = "earlier"
+		}
 	}
-	// D is beyond what time.Duration holds: saturate (or no deadline), never wrap
-	want = "D=" + f.D.String() + "ns exceeds MaxInt64: want no deadline or one not before t0+MaxInt64ns"
+	if o.Pre && o.Plo.Before(lower) {
+		lower = o.Plo
+	}
 	switch {
 	case !o.HasDl:
-		return "", obs, true
-	case o.Dl.Before(o.T0):
-		return "past-deadline", obs + "; " + want, true
-	case o.Dl.Before(o.T0.Add(math.MaxInt64)):
-		return "too-early", obs + "; " + want, true
-	case laterThanBig(o.Dl, o.T, f.D):
-		return "too-late", obs + "; " + want, true
+		if f.Fits {
+			return "no-deadline", obs + "; " + want, true, rel
+		}
+	case o.Dl.Before(lower) && o.Dl.Before(o.T0):
+		return "past-deadline", obs + "; " + want, true, rel
+	case o.Dl.Before(lower):
+		return "too-early", obs + "; " + want, true, rel
+	case f.Fits && o.Dl.After(upper), !f.Fits && laterThanBig(o.Dl, o.T, f.D):
+		return "too-late", obs + "; " + want, true, rel
 	}
-	return "", obs, true
+	if beyondPre(&o.hObs) {
+		return beyondClause, obs + "; " + want, true, rel
+	}
+	return "", obs, true, rel
 }
 
 func plain(s string) bool {
@@ -354,17 +468,71 @@ func plain(s string) bool {
 	return true
 }
 
+// preTag is the part of a fingerprint that names the request context's own
+// deadline: by its relation to the caller's (how far away it is is not part of
+// a finding's identity), and by the way it got there only if the plain context
+// deadline of the same value (which ran earlier) did not break the same clause.
+// It is left out altogether when the same case without such a deadline broke the
+// same clause. key gives the identity of the case with this dimension replaced
+// by the given value; failed has the (key|clause) of all cases that failed so far.
+func preTag(p preCase, rel, clause string, key func(pre, mount string) string, failed map[string]bool) string {
+	if p.Pre == "" {
+		return ""
+	}
+	if failed != nil && failed[key("", "")+"|"+clause] {
+		return ""
+	}
+	tag := "|ctx-deadline=" + rel
+	if p.Mount == mountTH && (failed == nil || !failed[key(p.Pre, mountCtx)+"|"+clause]) {
+		tag += "|mount=" + mountTH
+	}
+	return tag
+}
+
+// nominalRel is the relation the case was built for (the measured one may be
+// "straddling" when the two deadlines are within the duration of the case).
+func nominalRel(p preCase, hasCaller bool, caller *big.Int) string {
+	switch {
+	case p.Pre == "":
+		return ""
+	case p.PreNs < 0:
+		return "expired"
+	case !hasCaller:
+		return "present"
+	case big.NewInt(p.PreNs).Cmp(caller) < 0:
+		return "earlier"
+	}
+	return "later"
+}
+
+func (c serverCase) nominalRel() string {
+	f := parseRef(c.Header)
+	return nominalRel(c.preCase, !c.Absent && f.Valid, f.D)
+}
+
+func (c clientCase) nominalRel() string {
+	return nominalRel(c.preCase, !c.NoDeadline, big.NewInt(c.RemainingNs))
+}
+
 // serverFingerprint: values whose product with the unit fits int64 ns are
 // identified literally when they have at most 8 digits (the wire format's
 // limit) and by digit count and unit beyond that; everything that is not of the
 // valid form literally; values whose product overflows by unit and size class.
-func serverFingerprint(c serverCase, clause string) string {
+func serverFingerprint(c serverCase, clause string, failed map[string]bool) string {
+	rel := c.nominalRel()
 	side := "server"
 	if c.Handler == "stream" {
 		side = "server-stream"
 	}
+	key := func(pre, mount string) string {
+		return fmt.Sprintf("server|%s|%v|%s|%s|%s", c.Handler, c.Absent, c.Header, pre, mount)
+	}
+	if failed != nil {
+		failed[key(c.Pre, c.Mount)+"|"+clause] = true
+	}
+	pt := preTag(c.preCase, rel, clause, key, failed)
 	if c.Absent {
-		return fmt.Sprintf("C09|%s|GRPC-Timeout=<absent>|%s", side, clause)
+		return fmt.Sprintf("C09|%s|GRPC-Timeout=<absent>%s|%s", side, pt, clause)
 	}
 	f := parseRef(c.Header)
 	if f.Valid && !f.Fits {
@@ -377,23 +545,24 @@ func serverFingerprint(c serverCase, clause string) string {
 		if clause == "past-deadline" || clause == "too-early" {
 			clause = "wrapped"
 		}
-		return fmt.Sprintf("C09|%s|GRPC-Timeout=%s%c|overflows|%s", side, cls, f.Unit, clause)
+		return fmt.Sprintf("C09|%s|GRPC-Timeout=%s%c|overflows%s|%s", side, cls, f.Unit, pt, clause)
 	}
 	if f.Valid && f.Digits > 8 {
-		return fmt.Sprintf("C09|%s|GRPC-Timeout=%d-digit%c|fits|%s", side, f.Digits, f.Unit, clause)
+		return fmt.Sprintf("C09|%s|GRPC-Timeout=%d-digit%c|fits%s|%s", side, f.Digits, f.Unit, pt, clause)
 	}
 	h := c.Header
 	if !plain(h) {
 		h = fmt.Sprintf("%q", h)
 	}
-	return fmt.Sprintf("C09|%s|GRPC-Timeout=%s|%s", side, h, clause)
+	return fmt.Sprintf("C09|%s|GRPC-Timeout=%s%s|%s", side, h, pt, clause)
 }
 
 // ---------------------------------------------------------------- client and e2e clauses
 
 type clientCase struct {
-	Kind        string `json:"kind"` // "client" | "e2e"
-	Path        string `json:"path"` // unary | stream
+	Engine      string `json:"engine"` // "E2"
+	Kind        string `json:"kind"`   // "client" | "e2e"
+	Path        string `json:"path"`   // unary | stream
 	NoDeadline  bool   `json:"no_deadline,omitempty"`
 	RemainingNs int64  `json:"remaining_ns"`
 	Label       string `json:"label"`
@@ -404,6 +573,8 @@ type clientCase struct {
 	// caller's outgoing metadata: "" = none
 	MDKey  string   `json:"md_key,omitempty"`
 	MDVals []string `json:"md_values,omitempty"`
+	// e2e only: the request context on the server side has a deadline of its own
+	preCase
 }
 
 func (c clientCase) md() mdDim { return mdDim{c.MDKey, c.MDVals} }
@@ -415,6 +586,9 @@ func (c clientCase) name() string {
 	}
 	if c.MDKey != "" {
 		n += "/md:" + c.md().label()
+	}
+	if c.Pre != "" {
+		n += "/ctx-deadline=" + c.preCase.label()
 	}
 	return n
 }
@@ -571,12 +745,13 @@ func recordingBackend() http.RoundTripper {
 	})
 }
 
-// e2eBackend is common.HandlerRT(server) behind a RoundTripper that detaches
-// the request from the caller's context, as any real connection does: otherwise
-// the handler context would inherit the caller's deadline directly and
-// "extended" could never be observed.
-func e2eBackend() http.RoundTripper {
-	inner := common.HandlerRT(server())
+// e2eBackend is common.HandlerRT(the server as the case mounts it) behind a
+// RoundTripper that detaches the request from the caller's context, as any real
+// connection does: otherwise the handler context would inherit the caller's
+// deadline directly and "extended" could never be observed. The request context
+// that the library's handler gets is a fresh one, with the deadline of its own
+// that the case asks for.
+func e2eBackend(pre preCase) http.RoundTripper {
 	return common.RT(func(r *http.Request) (resp *http.Response, err error) {
 		// for streams the round trip runs on a goroutine of the library: a panic
 		// of the server must be caught here to be reported with its input
@@ -589,7 +764,11 @@ func e2eBackend() http.RoundTripper {
 				resp, err = nil, errServerPanic
 			}
 		}()
-		return inner.RoundTrip(r.WithContext(context.Background()))
+		obs := &hObs{}
+		if o != nil {
+			obs = &o.H
+		}
+		return common.HandlerRT(mounted(pre, obs)).RoundTrip(r.WithContext(context.Background()))
 	})
 }
 
@@ -603,12 +782,16 @@ func addBig(d time.Duration, e time.Duration) *big.Int {
 }
 
 // notSent decides the case in which the request / the handler was never
-// reached: fine once the caller's deadline has passed, a spurious expiry when
+// reached: fine once the caller's deadline (or the one that the request context
+// on the server side had of its own) has passed, a spurious expiry when
 // the library says DeadlineExceeded before it, and otherwise a problem of the
 // harness.
 func notSent(c clientCase, o *callObs, obs string) (string, string) {
 	if !c.NoDeadline && !o.After.Before(o.Dl) {
 		return "", obs
+	}
+	if o.H.Pre && !o.After.Before(o.H.Plo) {
+		return "", obs // the server's own limit has passed
 	}
 	if !c.NoDeadline && status.Code(o.Err) == codes.DeadlineExceeded {
 		return "spurious-expiry", obs
@@ -678,25 +861,44 @@ func checkClient(c clientCase) (clause, obs string, nontrivial bool) {
 	return "", obs, true
 }
 
-func checkE2E(c clientCase) (clause, obs string, nontrivial bool) {
-	o := call(c, e2eBackend())
+// checkE2E: rel is the measured relation of the request context's own
+// deadline to the caller's.
+func checkE2E(c clientCase) (clause, obs string, nontrivial bool, rel string) {
+	o := call(c, e2eBackend(c.preCase))
 	if o.Panic != "" {
-		return "panic", "panic: " + o.Panic, false
+		return "panic", "panic: " + o.Panic, false, ""
 	}
 	if !o.H.Reached {
-		cl, ob := notSent(c, o, fmt.Sprintf("handler never reached (RoundTrip called: %v), err=%v%s", o.Called, o.Err, o.credsObs()))
-		return cl, ob, false
+		cl, ob := notSent(c, o, fmt.Sprintf("handler never reached (RoundTrip called: %v), err=%v%s%s", o.Called, o.Err, o.credsObs(), o.H.preObs(o.Ta, "t_call")))
+		return cl, ob, false, ""
 	}
-	obs = fmt.Sprintf("GRPC-Timeout=%q%s, handler reached at t_call+%v", o.Values, o.credsObs(), o.H.T.Sub(o.Ta))
+	obs = fmt.Sprintf("GRPC-Timeout=%q%s, handler reached at t_call+%v%s", o.Values, o.credsObs(), o.H.T.Sub(o.Ta), o.H.preObs(o.Ta, "t_call"))
 	if c.NoDeadline {
-		if o.H.HasDl {
-			return "deadline-added", obs + ", handler deadline=" + fmtTime(o.H.Dl, o.Ta, "t_call"), hasTimeoutMD(c)
+		if o.H.Pre {
+			rel = "present"
+			if o.H.Phi.Before(o.Ta) {
+				rel = "expired"
+			}
 		}
-		return "", obs + ", no deadline", hasTimeoutMD(c)
+		switch {
+		case beyondPre(&o.H):
+			if o.H.HasDl {
+				obs += ", handler deadline=" + fmtTime(o.H.Dl, o.Ta, "t_call")
+			} else {
+				obs += ", no deadline"
+			}
+			return beyondClause, obs, hasTimeoutMD(c) || o.H.Pre, rel
+		case o.H.HasDl && (!o.H.Pre || o.H.Dl.Before(o.H.Plo)):
+			return "deadline-added", obs + ", handler deadline=" + fmtTime(o.H.Dl, o.Ta, "t_call"), hasTimeoutMD(c) || o.H.Pre, rel
+		case o.H.HasDl:
+			return "", obs + ", handler deadline=" + fmtTime(o.H.Dl, o.Ta, "t_call"), true, rel
+		}
+		return "", obs + ", no deadline", hasTimeoutMD(c), rel
 	}
+	rel = preRel(&o.H, o.Ta, o.Dl, o.Dl)
 	obs += fmt.Sprintf(", caller deadline=t_call+%v", time.Duration(c.RemainingNs))
 	if !o.H.HasDl {
-		return "no-deadline", obs + ", handler has no deadline", true
+		return "no-deadline", obs + ", handler has no deadline", true, rel
 	}
 	obs += ", handler deadline=" + fmtTime(o.H.Dl, o.Ta, "t_call")
 	// transit = from the latest instant at which the request was known not to
@@ -709,20 +911,28 @@ func checkE2E(c clientCase) (clause, obs string, nontrivial bool) {
 	if from.Before(base) {
 		from = base
 	}
-	switch {
-	case o.H.Dl.Before(o.Ta):
-		return "past-deadline", obs, true
-	case o.H.Dl.Before(o.Dl.Add(-time.Millisecond)):
-		return "earlier-than-caller", obs, true
-	case o.H.Dl.After(from.Add(transit).Add(time.Millisecond)):
-		return "later-than-caller", obs + fmt.Sprintf(", transit=%v", transit), true
+	// the earliest the handler's deadline may be: the caller's less the
+	// granularity, or the request context's own if that comes first
+	lower := o.Dl.Add(-time.Millisecond)
+	if o.H.Pre && o.H.Plo.Before(lower) {
+		lower = o.H.Plo
 	}
-	return "", obs, true
+	switch {
+	case o.H.Dl.Before(lower) && o.H.Dl.Before(o.Ta):
+		return "past-deadline", obs, true, rel
+	case o.H.Dl.Before(lower):
+		return "earlier-than-caller", obs, true, rel
+	case o.H.Dl.After(from.Add(transit).Add(time.Millisecond)):
+		return "later-than-caller", obs + fmt.Sprintf(", transit=%v", transit), true, rel
+	case beyondPre(&o.H):
+		return beyondClause, obs, true, rel
+	}
+	return "", obs, true, rel
 }
 
 // caseKey identifies a case of the client / e2e clauses.
-func caseKey(c clientCase, creds, md string) string {
-	return c.Kind + "|" + c.Path + "|" + c.Label + "|" + creds + "|" + md
+func caseKey(c clientCase, creds, md, pre, mount string) string {
+	return c.Kind + "|" + c.Path + "|" + c.Label + "|" + creds + "|" + md + "|" + pre + "|" + mount
 }
 
 // credsClass: how long credentials take is not part of a finding's identity,
@@ -748,20 +958,22 @@ func mdClass(c clientCase) string {
 }
 
 // clientFingerprint names the case by (clause, path, duration) and by the
-// classes of the two further dimensions, each only if it is needed for the
+// classes of the further dimensions, each only if it is needed for the
 // finding: a class is left out when the same case without that dimension (which
 // ran earlier, simplest first) broke the same clause. failed records that.
 func clientFingerprint(c clientCase, clause string, failed map[string]bool) string {
 	cr, md := credsClass(c), mdClass(c)
+	cr0, md0 := cr, md
 	if failed != nil {
-		failed[caseKey(c, cr, md)+"|"+clause] = true
-		if cr != "" && failed[caseKey(c, "", md)+"|"+clause] {
+		failed[caseKey(c, cr, md, c.Pre, c.Mount)+"|"+clause] = true
+		if cr != "" && failed[caseKey(c, "", md, c.Pre, c.Mount)+"|"+clause] {
 			cr = ""
 		}
-		if md != "" && failed[caseKey(c, cr, "")+"|"+clause] {
+		if md != "" && failed[caseKey(c, cr, "", c.Pre, c.Mount)+"|"+clause] {
 			md = ""
 		}
 	}
+	pt := preTag(c.preCase, c.nominalRel(), clause, func(pre, mount string) string { return caseKey(c, cr0, md0, pre, mount) }, failed)
 	l := "remaining=" + c.Label
 	if c.NoDeadline {
 		l = "no-deadline"
@@ -772,7 +984,14 @@ func clientFingerprint(c clientCase, clause string, failed map[string]bool) stri
 	if md != "" {
 		l += "|md=" + md
 	}
-	return fmt.Sprintf("C09|%s|%s|%s|%s", c.Kind, c.Path, l, clause)
+	return fmt.Sprintf("C09|%s|%s|%s%s|%s", c.Kind, c.Path, l, pt, clause)
+}
+
+func preName(p preCase) string {
+	if p.Pre == "" {
+		return ""
+	}
+	return ", request context deadline " + p.label()
 }
 
 // ---------------------------------------------------------------- main
@@ -792,7 +1011,7 @@ func main() {
 		case "server":
 			var c serverCase
 			common.LoadReplay(p, &c)
-			clause, obs, _ = checkServer(c)
+			clause, obs, _, _ = checkServer(c)
 		case "client":
 			var c clientCase
 			common.LoadReplay(p, &c)
@@ -800,7 +1019,7 @@ func main() {
 		case "e2e":
 			var c clientCase
 			common.LoadReplay(p, &c)
-			clause, obs, _ = checkE2E(c)
+			clause, obs, _, _ = checkE2E(c)
 		default:
 			inconclusive("unknown replay kind %q", probe.Kind)
 		}
@@ -829,30 +1048,40 @@ func main() {
 			nValid++
 		}
 	}
-	for _, kind := range []string{"unary", "stream"} {
-		c := serverCase{Kind: "server", Handler: kind, Absent: true}
-		evals++
-		clause, obs, _ := checkServer(c)
-		if kind == "unary" {
-			sample(c, obs)
-		}
-		if clause != "" {
-			rep.Violation(serverFingerprint(c, clause), clause+": "+obs, c)
-		}
-	}
-	for _, h := range headers {
+	// the request context's own deadline, simplest first: none, then every value
+	// as a plain context deadline, then behind http.TimeoutHandler
+	serverPres := append([]preCase{noPre}, allPres()...)
+	failed := map[string]bool{}
+	relCount := map[string]int{}
+	for _, pre := range serverPres {
 		for _, kind := range []string{"unary", "stream"} {
-			c := serverCase{Kind: "server", Handler: kind, Header: h}
+			c := serverCase{Engine: "E2", Kind: "server", Handler: kind, Absent: true, preCase: pre}
 			evals++
-			clause, obs, reached := checkServer(c)
-			if reached {
-				distinct["server|"+kind+"|"+h] = true
-			}
-			if kind == "unary" && wantSample[h] {
+			clause, obs, _, _ := checkServer(c)
+			if kind == "unary" && (pre.Pre == "" || pre.Pre == "1h") {
 				sample(c, obs)
 			}
 			if clause != "" {
-				rep.Violation(serverFingerprint(c, clause), fmt.Sprintf("GRPC-Timeout=%q (%s handler): %s: %s", h, kind, clause, obs), c)
+				rep.Violation(serverFingerprint(c, clause, failed), fmt.Sprintf("GRPC-Timeout absent (%s handler)%s: %s: %s", kind, preName(pre), clause, obs), c)
+			}
+		}
+		for _, h := range headers {
+			for _, kind := range []string{"unary", "stream"} {
+				c := serverCase{Engine: "E2", Kind: "server", Handler: kind, Header: h, preCase: pre}
+				evals++
+				clause, obs, reached, rel := checkServer(c)
+				if reached {
+					distinct["server|"+kind+"|"+h+"|"+pre.label()] = true
+					if rel != "" && parseRef(h).Valid {
+						relCount["server|"+rel]++
+					}
+				}
+				if kind == "unary" && (pre.Pre == "" && wantSample[h] || pre.Pre != "" && (h == "1S" || h == "2562047H" && pre.Pre == "200y" && pre.Mount == mountCtx)) {
+					sample(c, obs)
+				}
+				if clause != "" {
+					rep.Violation(serverFingerprint(c, clause, failed), fmt.Sprintf("GRPC-Timeout=%q (%s handler)%s: %s: %s", h, kind, preName(pre), clause, obs), c)
+				}
 			}
 		}
 	}
@@ -891,59 +1120,83 @@ func main() {
 			combos = append(combos, dims{cr: cr, baseOnly: true})
 		}
 	}
-	failed := map[string]bool{}
+	// end to end, each of these is crossed with the request context's own
+	// deadline on the server side: all values and both mounts for credentials
+	// {none, at once} x metadata; the plain context deadlines for the 3 ms
+	// credentials without metadata (every such case costs its delay on the clock)
+	presFor := func(kind string, dm dims) []preCase {
+		out := []preCase{noPre}
+		switch {
+		case kind != "e2e" || dm.baseOnly:
+		case dm.cr.Delay <= 0:
+			out = append(out, allPres()...)
+		case dm.cr.Label == slowCredsQuick[0].Label && dm.md.Key == "":
+			out = append(out, ctxPres()...)
+		}
+		return out
+	}
 	slowMeasured, mdWithDl, mdWithoutDl, credsConsulted := 0, 0, 0, 0
 	sampled := map[string]bool{}
+	e2eCombos := 0
 	for _, kind := range []string{"client", "e2e"} {
 		for _, path := range []string{"unary", "stream"} {
 			for _, dm := range combos {
-				for i := -1; i < len(rems); i++ {
-					c := clientCase{Kind: kind, Path: path, MDKey: dm.md.Key, MDVals: dm.md.Vals}
-					if dm.cr.Delay >= 0 {
-						c.Creds, c.CredsDelayNs = dm.cr.Label, int64(dm.cr.Delay)
+				for _, pre := range presFor(kind, dm) {
+					if kind == "e2e" && path == "unary" {
+						e2eCombos++
 					}
-					if i < 0 {
-						c.NoDeadline, c.Label = true, "none"
-					} else {
-						c.RemainingNs, c.Label = int64(rems[i].D), rems[i].Label
-					}
-					if dm.baseOnly && i >= 0 && !quickRems[c.Label] {
-						continue
-					}
-					evals++
-					var clause, obs string
-					var nontrivial bool
-					if kind == "client" {
-						clause, obs, nontrivial = checkClient(c)
-					} else {
-						clause, obs, nontrivial = checkE2E(c)
-					}
-					if nontrivial {
-						distinct[kind+"|"+path+"|"+c.Label+"|"+c.Creds+"|"+c.md().label()] = true
-						if c.Creds != "" && strings.Contains(obs, "credentials consulted") {
-							credsConsulted++
-							if c.CredsDelayNs > 0 {
-								slowMeasured++
+					for i := -1; i < len(rems); i++ {
+						c := clientCase{Engine: "E2", Kind: kind, Path: path, MDKey: dm.md.Key, MDVals: dm.md.Vals, preCase: pre}
+						if dm.cr.Delay >= 0 {
+							c.Creds, c.CredsDelayNs = dm.cr.Label, int64(dm.cr.Delay)
+						}
+						if i < 0 {
+							c.NoDeadline, c.Label = true, "none"
+						} else {
+							c.RemainingNs, c.Label = int64(rems[i].D), rems[i].Label
+						}
+						if dm.baseOnly && i >= 0 && !quickRems[c.Label] {
+							continue
+						}
+						evals++
+						var clause, obs, rel string
+						var nontrivial bool
+						if kind == "client" {
+							clause, obs, nontrivial = checkClient(c)
+						} else {
+							clause, obs, nontrivial, rel = checkE2E(c)
+						}
+						if nontrivial {
+							distinct[kind+"|"+path+"|"+c.Label+"|"+c.Creds+"|"+c.md().label()+"|"+pre.label()] = true
+							if rel != "" {
+								relCount["e2e|"+rel]++
+							}
+							if c.Creds != "" && strings.Contains(obs, "credentials consulted") {
+								credsConsulted++
+								if c.CredsDelayNs > 0 {
+									slowMeasured++
+								}
+							}
+							if hasTimeoutMD(c) {
+								if c.NoDeadline {
+									mdWithoutDl++
+								} else {
+									mdWithDl++
+								}
 							}
 						}
-						if hasTimeoutMD(c) {
-							if c.NoDeadline {
-								mdWithoutDl++
-							} else {
-								mdWithDl++
-							}
+						plainSample := c.Pre == "" && c.Creds == "" && c.MDKey == "" && (c.Label == "none" || c.Label == "100us" || c.Label == "1.5ms" || c.Label == "1h" || c.Label == "max")
+						preSample := c.Pre != "" && c.Creds == "" && c.MDKey == "" && (c.Label == "none" && c.Pre == "1h" || c.Label == "10ms" || c.Label == "290y" && c.Pre == "200y" && c.Mount == mountCtx)
+						dimSample := c.Pre == "" && (c.Label == "none" || c.Label == "10ms" || c.Label == "1h") &&
+							(c.Creds == "30ms" && c.MDKey == "" || c.Creds == "" && (c.md().label() == timeoutKey+"=1n" || c.md().label() == timeoutKey+"=1H,1n") ||
+								c.Creds == "3ms" && c.md().label() == timeoutKey+"=1H")
+						if path == "unary" && (plainSample || dimSample || preSample) && !sampled[c.name()] {
+							sampled[c.name()] = true
+							sample(c, obs)
 						}
-					}
-					plainSample := c.Creds == "" && c.MDKey == "" && (c.Label == "none" || c.Label == "100us" || c.Label == "1.5ms" || c.Label == "1h" || c.Label == "max")
-					dimSample := (c.Label == "none" || c.Label == "10ms" || c.Label == "1h") &&
-						(c.Creds == "30ms" && c.MDKey == "" || c.Creds == "" && (c.md().label() == timeoutKey+"=1n" || c.md().label() == timeoutKey+"=1H,1n") ||
-							c.Creds == "3ms" && c.md().label() == timeoutKey+"=1H")
-					if path == "unary" && (plainSample || dimSample) && !sampled[c.name()] {
-						sampled[c.name()] = true
-						sample(c, obs)
-					}
-					if clause != "" {
-						rep.Violation(clientFingerprint(c, clause, failed), fmt.Sprintf("%s: %s: %s", c.name(), clause, obs), c)
+						if clause != "" {
+							rep.Violation(clientFingerprint(c, clause, failed), fmt.Sprintf("%s: %s: %s", c.name(), clause, obs), c)
+						}
 					}
 				}
 			}
@@ -957,22 +1210,30 @@ func main() {
 			"non-trivial = header present and non-empty (the parse branch of contextFromHeaders runs) and the handler was reached so that ctx.Deadline() was observed; distinct by (handler kind, string). " +
 			"client / e2e: every remaining duration of the grammar (" + remainingText(thorough) + ") plus no deadline x {Invoke, NewStream} through a recording RoundTripper, and through HandlerRT(server), " +
 			"crossed with per-RPC " + credsText(thorough) + " and " + mdText() + ": the full cross product for credentials {none, at once} x metadata; credentials that take time (each case costs its delay on the clock) x metadata {none, " + mdGrammarSlow[1].label() + ", " + mdGrammarSlow[2].label() + "}, swept over every duration; " +
-			"non-trivial = the context had a deadline (the encoding branch of headersFromContext runs) or the metadata carried a grpc-timeout entry (the entry reaches the header map), and the RoundTripper / the handler was reached; distinct by (clause, path, duration, credentials, metadata). " +
+			"end to end each of these is crossed with the deadline on the server's request context: the full cross product (every value, both ways of putting it there) for credentials {none, at once} x metadata x duration; the plain context deadlines for credentials taking 3 ms without metadata x duration; none for the other slow credentials; " +
+			"non-trivial = the context had a deadline (the encoding branch of headersFromContext runs) or the metadata carried a grpc-timeout entry (the entry reaches the header map) or the request context had a deadline, and the RoundTripper / the handler was reached; distinct by (clause, path, duration, credentials, metadata, request context). " +
+			"request_context_deadline_relation counts the non-trivial cases by clause and by the measured relation of the request context's deadline to the caller's (server: t0+D for a valid header): expired = before the case began, earlier / later = outside the bracket of the caller's on that side, straddling = inside it. " +
 			"slow_credentials_measured counts the non-trivial cases in which GetRequestMetadata was entered and left with at least the delay between the two recorded instants; grpc_timeout_metadata_with/without_deadline count the non-trivial cases with such an entry.",
-		"server_strings":                         len(headers),
-		"server_strings_valid":                   nValid,
-		"remaining_durations":                    len(rems),
-		"credentials_metadata_combinations":      len(combos),
-		"metadata_values":                        len(mdGrammar),
-		"credentials_consulted":                  credsConsulted,
-		"slow_credentials_measured":              slowMeasured,
-		"grpc_timeout_metadata_with_deadline":    mdWithDl,
-		"grpc_timeout_metadata_without_deadline": mdWithoutDl,
-		"samples":                                samples,
-		"exhaustive":                             true,
+		"server_strings":                                        len(headers),
+		"server_strings_valid":                                  nValid,
+		"remaining_durations":                                   len(rems),
+		"credentials_metadata_combinations":                     len(combos),
+		"request_context_deadlines":                             len(serverPres),
+		"e2e_credentials_metadata_request_context_combinations": e2eCombos,
+		"request_context_deadline_relation":                     relCount,
+		"metadata_values":                                       len(mdGrammar),
+		"credentials_consulted":                                 credsConsulted,
+		"slow_credentials_measured":                             slowMeasured,
+		"grpc_timeout_metadata_with_deadline":                   mdWithDl,
+		"grpc_timeout_metadata_without_deadline":                mdWithoutDl,
+		"samples":                                               samples,
+		"exhaustive":                                            true,
 	}, []string{
 		"server side on httptest.ResponseRecorder, client side on a synthetic RoundTripper: net/http's own header handling (trimming of optional white space, rejection of control characters) is not in the loop, the parser sees the raw string",
-		"end to end, the request is detached from the caller's context before it reaches the server (as over a real connection), so the handler's deadline comes from the GRPC-Timeout header alone",
+		"end to end, the request is detached from the caller's context before it reaches the server (as over a real connection), so the handler's deadline comes from the GRPC-Timeout header and from the deadline the case puts on the server's request context alone",
+		"the request context's own deadline is an absolute distance from the instant the request context is made (1 s ago, 50 ms, 1 h, 200 y), not a function of the caller's deadline: it is earlier than the caller's for the longer and later for the shorter members of the header / duration grammars, which the measured relation counts show; a value within microseconds of the caller's is only met by accident (counted as straddling)",
+		"with a deadline on the request context the handler's deadline must still not be later than the caller's plus transit plus 1 ms, must not be later than the request context's (context deadlines only shrink; with http.TimeoutHandler that deadline is known only to lie between the instants before TimeoutHandler and at the entry of the wrapped handler, each plus the limit), and must not be earlier than the earlier of the two less the granularity; with no caller deadline it must be the request context's",
+		"http.TimeoutHandler with a limit that has already passed is not enumerated (it answers 503 itself while the handler runs, which of the two answers wins is not defined); the check waits for the wrapped handler to return before it reads what the handler recorded",
 		"deadlines 292 years or more ahead lose their monotonic clock reading inside package time; for those cases the bracketing comparison falls back to wall-clock readings and assumes the wall clock is not stepped backwards during the few microseconds of the case",
 		"client-side oracle demands what the statement says (within the 1 ms granularity either way, measured against instants around the call), not the particular rounding mode or unit",
 		"transit time starts when the per-RPC credentials have answered (grpc-go, the reference, computes the timeout it sends after GetRequestMetadata returned); the time credentials take is produced with time.Sleep inside GetRequestMetadata but judged only by the instants recorded at its entry and return, there is no tolerance anywhere",
